@@ -668,6 +668,13 @@ pub fn gen_c06(rng: &mut Rng, count: usize, _thorough: bool) -> Vec<Case> {
         out.push(apply("all/var", op("all", vec![var("xs"), var("")]), d.clone()));
         out.push(apply("some/var", op("some", vec![var("xs"), var("")]), d.clone()));
         out.push(apply("none/var", op("none", vec![var("xs"), var("")]), d.clone()));
+        // as the whole data
+        for pos in ["!!", "!"] {
+            out.push(apply(&format!("{}/whole-data", pos), op(pos, vec![var("")]), v.clone()));
+        }
+        out.push(apply("if/whole-data", op("if", vec![var(""), s("T"), s("F")]), v.clone()));
+        out.push(apply("or/whole-data", op("or", vec![op1("var", Value::Null), s("next")]), v.clone()));
+        out.push(apply("filter/whole-data", op("filter", vec![json!([1]), var("outer")]), v.clone()));
         // through another operator's result
         let thru = op("if", vec![json!(true), x.clone(), int(1)]);
         out.push(apply("or/result", op("or", vec![thru.clone(), s("next")]), d.clone()));
